@@ -119,8 +119,11 @@ def variant (s : State) : Nat :=
   | none => s.replicas.natAbs + (oldTotal s).natAbs + 1
   | some r => (s.replicas - r.spec).natAbs + (oldTotal s).natAbs
 
+/-- hypotheses of the convergence clause: `I`, rolling path, covering partition, live fenceposts -/
+def live (s : State) : Bool := inv s && inScope s && covers s && cfgLive s
+
 /-- run-time form of (v): outcome of the healthy schedule reported by the harness -/
 def clauseV (s : State) (newFinal oldFinal : Int) : Bool :=
-  !(inv s && inScope s && covers s && cfgLive s) || (newFinal == s.replicas && oldFinal == 0)
+  !live s || (newFinal == s.replicas && oldFinal == 0)
 
 end RV.Oracle.C17
